@@ -6,6 +6,7 @@ package c12
 
 import (
 	"bytes"
+	"errors"
 	"fmt"
 	"os"
 	"path/filepath"
@@ -82,6 +83,8 @@ func waitNoFlushLoop(baseline int) bool {
 	return false
 }
 
+var errSyncRefused = errors.New("c12 sink sync refused")
+
 type seqState struct {
 	accepted []byte
 	bounds   map[int]bool // cumulative offsets of client write boundaries
@@ -152,6 +155,16 @@ func seqHistory(r *ev.Run, id string, i int) {
 	st := &seqState{bounds: map[int]bool{0: true}, size: eff}
 	var trace []string
 	stopped, inited := false, false
+	// one history in six runs over a sink that accepts every write but whose Sync always reports an
+	// error: the errors are the caller's to see, flushing and ticking go on as before
+	syncFails := g.P(1, 6)
+	if syncFails {
+		for k := 0; k < 4000; k++ {
+			sink.SyncErrs = append(sink.SyncErrs, errSyncRefused)
+		}
+		trace = append(trace, "(the sink's Sync always fails)")
+		r.Count("histories_over_a_sink_whose_sync_fails", 1)
+	}
 	nops := g.Range(5, 60)
 	fail := func(class, msg string) {
 		r.Violate(ev.Violation{Case: id, Class: class, Msg: fmt.Sprintf("Size=%d: %s", size, msg), Witness: map[string]any{"size": size, "ops": trace}})
@@ -211,8 +224,8 @@ func seqHistory(r *ev.Run, id string, i int) {
 			r.Count("ops:write", 1)
 		case op == 6 || op == 7: // Sync
 			trace = append(trace, "Sync")
-			if err := b.Sync(); err != nil {
-				fail("bws-sync-result", fmt.Sprintf("Sync returned %v", err))
+			if err := b.Sync(); (err != nil) != syncFails {
+				fail("bws-sync-result", fmt.Sprintf("Sync returned %v (sink sync fails: %v)", err, syncFails))
 				return
 			}
 			if m := st.flushed(sink, "Sync"); m != "" {
@@ -227,9 +240,19 @@ func seqHistory(r *ev.Run, id string, i int) {
 			}
 			trace = append(trace, "tick")
 			before := sink.Syncs()
-			select {
-			case ch <- time.Unix(2, 0):
-			case <-time.After(20 * time.Second):
+			taken := false
+			for w := 0; w < 2000 && !taken; w++ {
+				select {
+				case ch <- time.Unix(2, 0):
+					taken = true
+				case <-time.After(10 * time.Millisecond):
+					if tot, _ := flushLoops(); tot <= baseline {
+						fail("bws-flush-loop-gone", "the syncer was not stopped but its flush goroutine no longer exists: ticks are no longer processed")
+						return
+					}
+				}
+			}
+			if !taken {
 				r.Inconclusive(id + ": the flush loop did not take a tick within 20s")
 				return
 			}
@@ -263,7 +286,7 @@ func seqHistory(r *ev.Run, id string, i int) {
 		default: // Stop (possibly repeated)
 			trace = append(trace, "Stop")
 			err := b.Stop()
-			if err != nil {
+			if err != nil && !(syncFails && strings.Contains(err.Error(), errSyncRefused.Error())) {
 				fail("bws-stop-result", fmt.Sprintf("Stop returned %v", err))
 				return
 			}
@@ -289,6 +312,144 @@ func seqHistory(r *ev.Run, id string, i int) {
 	}
 	if i < 2 {
 		r.Sample(map[string]any{"size": size, "ops": trace})
+	}
+}
+
+// ---- a tick that arrives while a write is in progress ------------------------------------------
+
+type gateSink struct {
+	mu      sync.Mutex
+	events  []rec.Event
+	armed   bool
+	entered chan struct{}
+	open    chan struct{}
+}
+
+func (s *gateSink) Write(p []byte) (int, error) {
+	s.mu.Lock()
+	armed := s.armed
+	s.armed = false
+	s.mu.Unlock()
+	if armed {
+		s.entered <- struct{}{}
+		<-s.open
+	}
+	s.mu.Lock()
+	s.events = append(s.events, rec.Event{Kind: 'W', Bytes: append([]byte(nil), p...)})
+	s.mu.Unlock()
+	return len(p), nil
+}
+
+func (s *gateSink) Sync() error {
+	s.mu.Lock()
+	s.events = append(s.events, rec.Event{Kind: 'S'})
+	s.mu.Unlock()
+	return nil
+}
+
+// loopStates returns the scheduler state of every flush-loop goroutine ("select", "sync.Mutex.Lock", ...).
+func loopStates() []string {
+	stackMu.Lock()
+	defer stackMu.Unlock()
+	n := runtime.Stack(stackBuf, true)
+	var out []string
+	for _, g := range bytes.Split(stackBuf[:n], []byte("\n\n")) {
+		if bytes.Contains(g, []byte("BufferedWriteSyncer).flushLoop")) {
+			h := g[:bytes.IndexByte(append(g, '\n'), '\n')]
+			if a, b := bytes.IndexByte(h, '['), bytes.LastIndexByte(h, ']'); a >= 0 && b > a {
+				out = append(out, string(h[a+1:b]))
+			}
+		}
+	}
+	return out
+}
+
+// contendedTick holds a caller's Write inside the sink (so the syncer is in the middle of an
+// operation), delivers a tick, lets the Write finish and waits until the flush loop is idle again:
+// the tick has then been processed, and everything accepted before it must be in the sink, synced.
+func contendedTick(r *ev.Run, id string, i int) {
+	g := rng.For(r.Seed, "c12/contended", i)
+	size := rng.Pick(g, []int{4, 8, 64, 512})
+	sink := &gateSink{entered: make(chan struct{}, 1), open: make(chan struct{})}
+	clk := &hclock{}
+	b := &zapcore.BufferedWriteSyncer{WS: sink, Size: size, FlushInterval: time.Hour, Clock: clk}
+	first := bytes.Repeat([]byte{'a'}, g.Range(1, size-1))
+	second := bytes.Repeat([]byte{'b'}, g.Range(size-len(first)+1, 2*size))
+	wit := map[string]any{"size": size, "first_write": len(first), "second_write": len(second)}
+	if _, err := b.Write(first); err != nil {
+		r.Violate(ev.Violation{Case: id, Class: "bws-write-result", Msg: fmt.Sprintf("Write returned %v", err), Witness: wit})
+		return
+	}
+	defer b.Stop()
+	sink.mu.Lock()
+	sink.armed = true
+	sink.mu.Unlock()
+	done := make(chan struct{})
+	go func() { _, _ = b.Write(second); close(done) }()
+	guard := func(what string, cond func() bool) bool {
+		for w := 0; w < 400000; w++ {
+			if cond() {
+				return true
+			}
+			if w > 200 {
+				time.Sleep(50 * time.Microsecond)
+			} else {
+				runtime.Gosched()
+			}
+		}
+		r.Inconclusive(id + ": " + what + " was not observed within the guard time")
+		return false
+	}
+	select {
+	case <-sink.entered:
+	case <-time.After(20 * time.Second):
+		r.Inconclusive(id + ": the second write never reached the sink")
+		return
+	}
+	select {
+	case clk.last() <- time.Unix(2, 0):
+	case <-time.After(20 * time.Second):
+		r.Inconclusive(id + ": the flush loop did not take the tick")
+		close(sink.open)
+		return
+	}
+	// the loop has reacted to the tick when it waits for the lock held by the write, or is idle again
+	reacted := ""
+	ok := guard("the flush loop's reaction to the tick", func() bool {
+		for _, st := range loopStates() {
+			if strings.Contains(st, "select") || strings.Contains(st, "Mutex") || strings.Contains(st, "semacquire") {
+				reacted = st
+				return true
+			}
+		}
+		return false
+	})
+	close(sink.open)
+	<-done
+	if !ok {
+		return
+	}
+	if !guard("the flush loop going idle", func() bool { tot, sel := flushLoops(); return tot == sel }) {
+		return
+	}
+	r.SetAdd("contended_tick_loop_reaction", strings.Fields(reacted + " -")[0])
+	r.Count("contended_ticks", 1)
+	sink.mu.Lock()
+	defer sink.mu.Unlock()
+	var all []byte
+	kinds := ""
+	for _, e := range sink.events {
+		all = append(all, e.Bytes...)
+		kinds += string(e.Kind)
+	}
+	wit["sink_events"] = kinds
+	wit["loop_state_after_tick"] = reacted
+	want := append(append([]byte{}, first...), second...)
+	switch {
+	case !bytes.Equal(all, want):
+		r.Violate(ev.Violation{Case: id, Class: "bws-tick-under-contention", Msg: fmt.Sprintf("Size=%d: a tick was delivered while a Write was in progress; after that Write returned and the flush loop went idle the sink holds %d of the %d bytes accepted before the tick was processed", size, len(all), len(want)), Witness: wit})
+	case !strings.HasSuffix(kinds, "S"):
+		r.Violate(ev.Violation{Case: id, Class: "bws-tick-under-contention", Msg: fmt.Sprintf("Size=%d: a tick was delivered while a Write was in progress; after the flush loop went idle the sink was not synced after its last write (events %s)", size, kinds), Witness: wit})
 	}
 }
 
@@ -723,6 +884,24 @@ func Run(r *ev.Run) {
 		}
 		if hung >= 3 {
 			break // each abandoned history leaks its goroutines; three are enough
+		}
+	}
+	for i, n := 0, r.N(60, 1500); i < n; i++ {
+		id := fmt.Sprintf("c12/contended-tick/%d", i)
+		if !r.Want(id) {
+			continue
+		}
+		r.Eval(1)
+		r.Distinct(fmt.Sprintf("ctick|%d", i))
+		h := mon.Watch(90*time.Second, func() { contendedTick(r, id, i) }, "BufferedWriteSyncer")
+		if h.Panicked != "" {
+			r.Violate(ev.Violation{Case: id, Class: "bws-panic", Msg: "panicked: " + h.Panicked})
+		} else if h.Dead {
+			r.Violate(ev.Violation{Case: id, Class: "bws-deadlock", Msg: "a tick delivered during a Write left the syncer blocked for good", Witness: h.Dump})
+			break
+		} else if h.Hung {
+			r.Inconclusive(id + ": exceeded the watchdog")
+			break
 		}
 	}
 	r.Extra("seconds_sequential", time.Since(t0).Seconds())
